@@ -355,6 +355,24 @@ theorem mask_index_1d (n : Nat) (bits : List Bool) (hn : 0 < n) (hb : bits.lengt
   Np.GenIndexFns.mask_index_1d n bits hn hb
 example : genIndexF [2, 3] [.mask [2, 3] [true, false, true, false, false, true]] = some ([3], [0, 2, 5]) := by decide
 
+/-- ... carried through the executable gather: **`poly[mask]` holds, in order, exactly the elements of `poly` where the mask
+is `True`** - element `t` of the result is the whole polynomial element of the operand at the flat position of the `t`-th
+`True`, for every well-formed polynomial array (any names, terms, retain flags) and every mask of its shape -/
+theorem getitem_mask_moves_elements {R : Type} [CommRing R] [BEq R] [LawfulBEq R] (rc rn : Bool) (a : Arr R) (ha : a.WF)
+    (bits : List Bool) (hnd : a.shape.length ≠ 0) (hpos : ∀ d ∈ a.shape, 0 < d) (hb : bits.length = size a.shape)
+    (out idx : List Nat) (h : genIndexF a.shape [.mask a.shape bits] = some (out, idx)) :
+    out = [(truePos bits).length] ∧
+    ∀ (t : Fin (size out)) (p : Nat), (truePos bits)[t.val]? = some p →
+      ∃ hp : p < size a.shape, (gatherOp rc rn [a] out (gatherIdx1 idx)).elem t = a.elem ⟨p, hp⟩ := by
+  rw [Np.GenIndexFns.mask_selects_true_positions a.shape bits hnd hpos hb] at h
+  simp only [Option.some.injEq, Prod.mk.injEq] at h
+  obtain ⟨rfl, rfl⟩ := h
+  refine ⟨rfl, fun t p hp => ?_⟩
+  have hlt : p < size a.shape := by
+    have hm : p ∈ truePos bits := List.mem_of_getElem? hp
+    exact hb ▸ Np.GenIndexFns.truePos_lt hm
+  exact ⟨hlt, single_gather_reads rc rn a ha _ _ t p hp hlt⟩
+
 /-- non-vacuity (numpy on `arange(24).reshape(2, 3, 4)`): `a[0, :, [1, 2]]` - the integer counts as an advanced item, it
 is separated from the array by the slice, so the broadcast axis comes first -; a 2-d mask followed by a stepped slice;
 an ellipsis that stands for no axis still separates -/
